@@ -338,6 +338,38 @@ theorem clone_validates_same (st : Store) (root : NodeId) (env : Go.Env) (hnd : 
     rs rs' h₁ h₂
   exact ⟨c, st', rs', h, h₂, e1, e2, e3⟩
 
+/-- `clone_validate_same`: … and for the evaluator itself (`Go.validateFuel`, through `C01.validate_refines_spec`), trees
+    with references included.  The original is resolved in the store before cloning (`rs`), the clone in the store after
+    (`rs'`).  `v₁`, `v₂`: the environments `Validate` runs on — the drafts of `rs` / `rs'`; info tables and stores that
+    agree with those of `rs` / `rs'` and with `st` / `st'` on the schemas `rs` / `rs'` know (elsewhere arbitrary: the
+    evaluation never gets there — so `v₂` may also carry records for the original, which lives in `st'` too); the same
+    regexp matcher; well formed as `Resolve` leaves them (`EnvWF`, `StoreWF`).  ONE Spec result governs the run on `root`
+    and the run on the clone `c`: wherever the Spec decides, both return an error or both succeed with annotations
+    denoting the same evaluated sets. -/
+theorem clone_validate_same (B d : Nat) (st : Store) (root c : NodeId) (st' : Store)
+    (hg : Go.Good B st d root) (h : Go.clone st root = .ok (c, st')) (hB : st'.size ≤ B) (hBn : B ≤ 1000000000)
+    (env : Go.Env) (hnd : Go.RIso.NoDocs env) (fuel : Nat) (base : String) (rs rs' : Go.Resolved)
+    (h₁ : Go.resolve { env with st := st } fuel root base = .ok rs)
+    (h₂ : Go.resolve { env with st := st' } fuel c base = .ok rs') (v₁ v₂ : Go.VEnv)
+    (hi₁ : ∀ a, (Go.lookupNat a rs.infos).isSome = true → v₁.info? a = Go.lookupNat a rs.infos)
+    (hi₂ : ∀ b, (Go.lookupNat b rs'.infos).isSome = true → v₂.info? b = Go.lookupNat b rs'.infos)
+    (hd₁ : v₁.draft = rs.draft) (hd₂ : v₂.draft = rs'.draft)
+    (hs₁ : ∀ a, (Go.lookupNat a rs.infos).isSome = true → v₁.st.get? a = st.get? a)
+    (hs₂ : ∀ b, (Go.lookupNat b rs'.infos).isSome = true → v₂.st.get? b = st'.get? b)
+    (hrm : v₁.reMatch = v₂.reMatch) (hwf₁ : Refine.EnvWF v₁) (hwf₂ : Refine.EnvWF v₂)
+    (hst₁ : Refine.StoreWF v₁.st) (hst₂ : Refine.StoreWF v₂.st) (vfuel : Nat) (j : Json) (hj : Json.WF j = true) :
+    Refine.Rel j (Spec.evalFuel (Refine.specEnvOf v₁) vfuel [] root j)
+        (Go.validateFuel v₁ vfuel [] (GoVal.ofJson j) root) ∧
+      Refine.Rel j (Spec.evalFuel (Refine.specEnvOf v₁) vfuel [] root j)
+        (Go.validateFuel v₂ vfuel [] (GoVal.ofJson j) c) := by
+  have hext := Go.cloneFuel_ext _ h
+  have hs : st.size ≤ B := Nat.le_trans hext.1 hB
+  have hsim : Go.Sim B st st' d root c := Go.cloneFuel_sim B st _ d (Go.Ext.refl st) hg h hB
+  exact Go.RIso.trees_validate_iso (env₁ := { env with st := st }) (env₂ := { env with st := st' })
+    (Go.RIso.cloneS_treeSim hs hB) rfl rfl rfl hnd
+    (Go.get?_eq_none_iff.2 (Nat.le_trans hs hBn)) (Go.get?_eq_none_iff.2 (Nat.le_trans hB hBn))
+    (r₁ := root) (r₂ := c) ⟨d, hsim⟩ fuel base h₁ h₂ v₁ v₂ hi₁ hi₂ hd₁ hd₂ hs₁ hs₂ hrm hwf₁ hwf₂ hst₁ hst₂ vfuel j hj
+
 /-- `clone_resolves_iff`: for a TREE (checkStructure accepts `root`) `Resolve` of the original and `Resolve` of the clone
     — same options, base URI, fuel; self-contained resolution — fail together or succeed together.  (For a DAG they do
     not: the original is refused, the clone resolves; example `clone_of_dag_resolves` below.) -/
@@ -556,6 +588,76 @@ example : (match Go.resolve exRefEnv 1 0 "" with
        Spec.valid (Go.RIso.specOf exRefTree rs fun _ _ => false) 4 0 (.obj [("a", .num 1)])]
     | _ => []) = [some true, some false, some false] := by
   decide +kernel
+
+/-- `clone_validate_same` applied: `v₁` = what `Resolve` of the original leaves; `v₂` = the store after cloning with the
+    tables of the clone's `Resolved` followed by those of the original's (so that every object of the store has a
+    record, `EnvWF`).  The well-formedness checks are evaluated. -/
+def exV₁ (rs : Go.Resolved) : Go.VEnv := Go.RIso.venvOf exRefTree rs (fun _ _ => false) (fun _ => 0)
+def exV₂ (st' : Store) (rs rs' : Go.Resolved) : Go.VEnv :=
+  { st := st', draft := rs'.draft, infos := rs'.infos ++ rs.infos, reMatch := fun _ _ => false, hash := fun _ => 0 }
+
+def exRefChecks : Bool :=
+  match Go.clone exRefTree 0 with
+  | .ok (c, st') =>
+    match Go.resolve exRefEnv 1 0 "", Go.resolve { exRefEnv with st := st' } 1 c "" with
+    | .ok rs, .ok rs' =>
+      Refine.infoTotalB (exV₁ rs) && Refine.baseTotalB (exV₁ rs) && Refine.infoTotalB (exV₂ st' rs rs') &&
+        Refine.baseTotalB (exV₂ st' rs rs') && Refine.storeWFB exRefTree && Refine.storeWFB st' &&
+        decide (st'.size ≤ 1000000000)
+    | _, _ => false
+  | _ => false
+
+theorem exRefChecks_ok : exRefChecks = true := by decide +kernel
+
+example (vfuel : Nat) (j : Json) (hj : Json.WF j = true) :
+    ∃ c st' rs rs', Go.clone exRefTree 0 = .ok (c, st') ∧ Go.resolve exRefEnv 1 0 "" = .ok rs ∧
+      Go.resolve { exRefEnv with st := st' } 1 c "" = .ok rs' ∧
+      Refine.Rel j (Spec.evalFuel (Refine.specEnvOf (exV₁ rs)) vfuel [] 0 j)
+        (Go.validateFuel (exV₁ rs) vfuel [] (GoVal.ofJson j) 0) ∧
+      Refine.Rel j (Spec.evalFuel (Refine.specEnvOf (exV₁ rs)) vfuel [] 0 j)
+        (Go.validateFuel (exV₂ st' rs rs') vfuel [] (GoVal.ofJson j) c) := by
+  have hck := exRefChecks_ok
+  unfold exRefChecks at hck
+  cases hc : Go.clone exRefTree 0 with
+  | ok r =>
+    obtain ⟨c, st'⟩ := r
+    rw [hc] at hck
+    dsimp only at hck
+    cases hr : Go.resolve exRefEnv 1 0 "" with
+    | ok rs =>
+      cases hr' : Go.resolve { exRefEnv with st := st' } 1 c "" with
+      | ok rs' =>
+        rw [hr, hr'] at hck
+        simp only [Bool.and_eq_true, decide_eq_true_eq] at hck
+        obtain ⟨⟨⟨⟨⟨⟨k1, k2⟩, k3⟩, k4⟩, k5⟩, k6⟩, k7⟩ := hck
+        have hg : Go.Good st'.size exRefTree exRefTree.size 0 := by
+          have hcs : (Go.checkStructure exRefTree 7 [(0, "")] []).isOk = true := by decide
+          cases hcs' : Go.checkStructure exRefTree 7 [(0, "")] [] with
+          | ok fresh => exact Go.good_of_checkStructure _ exRefTree 7 0 fresh hcs'
+          | fuel => rw [hcs'] at hcs; cases hcs
+          | panic => rw [hcs'] at hcs; cases hcs
+          | err => rw [hcs'] at hcs; cases hcs
+        refine ⟨c, st', rs, rs', rfl, rfl, hr', ?_⟩
+        exact clone_validate_same st'.size exRefTree.size exRefTree 0 c st' hg hc (Nat.le_refl _) k7 exRefEnv
+          exRefEnv_noDocs 1 "" rs rs' hr hr' (exV₁ rs) (exV₂ st' rs rs') (fun _ _ => rfl)
+          (fun b hb => by
+            show Go.lookupNat b (rs'.infos ++ rs.infos) = Go.lookupNat b rs'.infos
+            rw [Go.RPerm.lookupNat_append]
+            cases e : Go.lookupNat b rs'.infos with
+            | none => rw [e] at hb; cases hb
+            | some i => rfl)
+          rfl rfl (fun _ _ => rfl) (fun _ _ => rfl) rfl
+          (Refine.EnvWF_of_checks _ k1 k2 (fun _ _ _ => rfl)) (Refine.EnvWF_of_checks _ k3 k4 (fun _ _ _ => rfl))
+          (Refine.StoreWF_of_check _ k5) (Refine.StoreWF_of_check _ k6) vfuel j hj
+      | fuel => rw [hr, hr'] at hck; cases hck
+      | panic => rw [hr, hr'] at hck; cases hck
+      | err => rw [hr, hr'] at hck; cases hck
+    | fuel => rw [hr] at hck; cases hck
+    | panic => rw [hr] at hck; cases hck
+    | err => rw [hr] at hck; cases hck
+  | fuel => rw [hc] at hck; cases hck
+  | panic => rw [hc] at hck; cases hck
+  | err => rw [hc] at hck; cases hck
 
 /-- `clone_of_dag_resolves`: the converse direction fails, and must: a DAG (schema 1 is shared) is refused by Resolve
     ("do not form a tree"), its clone is a tree and resolves -/
